@@ -31,7 +31,7 @@ ASSUMPTIONS = ["check_each_level stays at its default (True)", "ContinuousTapCon
                "control_step", "result equality: |a-b| <= 1e-6 + 1e-6|b| against runpp on a scrubbed copy"]
 REACH_PROBES = ["control_loop_hit_max_iter", "run_invocation_failed", "multi_level", "tap_at_limit_on_return",
                 "second_call_on_same_net", "probe_controller_never_converges", "returned_normally",
-                "trafo3w_tap_changer_on_mv_winding"]
+                "trafo3w_tap_changer_on_mv_winding", "vectorised_tap_controller"]
 
 TEMPLATES = [("feeder", 4), ("feeder_t3w", 3), ("feeder_taptable", 1)]
 
@@ -61,7 +61,8 @@ def gen_controller(rng):
         c.update(element=rng.choice(["trafo", "trafo", "trafo3w"]), row=rng.randrange(100),
                  side=rng.choice(["lv", "lv", "hv", "mv"]), vm_set=round(rng.uniform(0.96, 1.04), 3),
                  half=rng.choice([0.02, 0.015, 0.01, 0.004, 0.001]), tol=rng.choice([1e-3, 1e-3, 5e-3]),
-                 bounds=rng.random() < 0.8, hunting=rng.choice([None, None, 3]))
+                 bounds=rng.random() < 0.8, hunting=rng.choice([None, None, 3]),
+                 multi=rng.random() < 0.2)       # one controller object for two transformers (list of indices)
     elif kind == "const":
         c.update(element=rng.choice(["load", "sgen"]), variable="p_mw", row=rng.randrange(100))
     elif kind == "characteristic":
@@ -198,6 +199,7 @@ def execute(ep, ctx):
             st, _ = ops.apply_basic(net, op)
             ctx.event("set", st)
         elif k == "controller":
+            _PROBE[0] = ctx.probe
             c = _create_controller(net, op, Probe, DiscreteTapControl, ContinuousTapControl, ConstControl)
             if c is not None:
                 created.append((c, op))
@@ -207,6 +209,9 @@ def execute(ep, ctx):
             if n_calls > 1:
                 ctx.probe("second_call_on_same_net")
             _exec_run_control(net, op, i, ctx, created, n_calls)
+
+
+_PROBE = [None]
 
 
 def _create_controller(net, op, Probe, Discrete, Continuous, Const):
@@ -219,20 +224,29 @@ def _create_controller(net, op, Probe, Discrete, Continuous, Const):
                 return None
             # one tap controller per transformer: two controllers fighting over one tap changer is a
             # configuration error, not a property of the control loop
-            for obj in net.controller.object.values:
-                if getattr(obj, "element", None) == el and hasattr(obj, "tap_min") and \
-                        int(np.atleast_1d(obj.element_index)[0]) == int(r):
-                    return None
+            taken = {int(x) for obj in net.controller.object.values
+                     if getattr(obj, "element", None) == el and hasattr(obj, "tap_min")
+                     for x in np.atleast_1d(obj.element_index)}
+            if int(r) in taken:
+                return None
             side = op["side"]
             if el == "trafo" and side == "mv":
                 side = "lv"
+            idx = int(r)
+            if op.get("multi") and kind in ("discrete", "continuous"):
+                # a second transformer of the same kind under the same controller object (vectorised form)
+                others = [int(x) for x in net[el].index if int(x) != int(r) and int(x) not in taken
+                          and not pd.isna(net[el].at[x, "tap_pos"])]
+                if others:
+                    idx = [int(r), others[op["row"] % len(others)]]
+                    _PROBE[0] and _PROBE[0]("vectorised_tap_controller")
             if kind == "discrete":
-                return Discrete(net, int(r), op["vm_set"] - op["half"], op["vm_set"] + op["half"], side=side,
+                return Discrete(net, idx, op["vm_set"] - op["half"], op["vm_set"] + op["half"], side=side,
                                 element=el, tol=op["tol"], hunting_limit=op["hunting"], **common)
             if kind == "discrete_step":
                 return Discrete.from_tap_step_percent(net, int(r), op["vm_set"], side=side, element=el,
                                                       tol=op["tol"], hunting_limit=op["hunting"], **common)
-            return Continuous(net, int(r), op["vm_set"], tol=op["tol"], side=side, element=el,
+            return Continuous(net, idx, op["vm_set"], tol=op["tol"], side=side, element=el,
                               check_tap_bounds=op["bounds"], **common)
         if kind == "characteristic":
             from pandapower.control import CharacteristicControl
@@ -305,19 +319,21 @@ def _exec_run_control(net, op, i, ctx, created, call_no):
                     events.append((ctx.next_seq(), meth, int(c.index), None))
                     tapctl = meth == "control_step" and o["kind"] in ("discrete", "discrete_step", "continuous") and \
                         (o["kind"] != "continuous" or o["bounds"])
-                    before = None
-                    if tapctl and int(c.element_index) in net[c.element].index:
-                        before = float(net[c.element].at[int(c.element_index), "tap_pos"])
+                    before = {}
+                    if tapctl:
+                        for r in np.atleast_1d(c.element_index):
+                            if int(r) in net[c.element].index:
+                                before[int(r)] = float(net[c.element].at[int(r), "tap_pos"])
                     out = orig(*a, **k)
                     if meth == "is_converged":
                         events[-1] = events[-1][:3] + (bool(out),)
-                    if before is not None:
-                        el, r = c.element, int(c.element_index)
+                    for r, b4 in before.items():
+                        el = c.element
                         tp, lo, hi = float(net[el].at[r, "tap_pos"]), float(net[el].at[r, "tap_min"]), \
                             float(net[el].at[r, "tap_max"])
                         # only a move made by THIS step counts (another controller with check_tap_bounds=False may
                         # legitimately have left the tap outside before)
-                        if tp != before and not (lo - 1e-9 <= tp <= hi + 1e-9) and (lo - 1e-9 <= before <= hi + 1e-9):
+                        if tp != b4 and not (lo - 1e-9 <= tp <= hi + 1e-9) and (lo - 1e-9 <= b4 <= hi + 1e-9):
                             tap_violation.append((o["kind"], el, r, tp, lo, hi))
                     return out
                 return wrapped
@@ -472,44 +488,8 @@ def _check_return(net, ctrls, op, kw, bad, ctx, multi, events=()):
                                                          f"returned state")
         # 4b. band / setpoint or limit
         if o["kind"] in ("discrete", "discrete_step", "continuous") and not c.nothing_to_do(net):
-            el, r = c.element, int(c.element_index)
-            vm = float(net.res_bus.vm_pu.at[int(c.trafobus)]) if len(net.res_bus) else np.nan
-            tp, lo, hi = float(net[el].at[r, "tap_pos"]), float(net[el].at[r, "tap_min"]), float(net[el].at[r, "tap_max"])
-            at_limit = tp <= lo + 1e-9 or tp >= hi - 1e-9
-            if at_limit:
-                ctx.probe("tap_at_limit_on_return")
-            if np.isnan(vm):
-                continue
-            # "at the limit in the needed direction": if the voltage is outside the band with the tap at a
-            # limit, one step back into the range must not bring the voltage closer to the band
-            if o["kind"] == "continuous":
-                lo_v, hi_v = c.vm_set_pu * (1 - c.tol), c.vm_set_pu * (1 + c.tol)
-            else:
-                lo_v, hi_v = c.vm_lower_pu, c.vm_upper_pu
-            dist = max(lo_v - vm, vm - hi_v, 0.0)
-            if at_limit and dist > 1e-9 and (o["kind"] != "continuous" or o["bounds"]):
-                probe = oracles.scrubbed_copy(net)
-                probe[el].at[r, "tap_pos"] = tp + 1 if tp <= lo + 1e-9 else tp - 1
-                _, pe = c08._plain_call(lambda: pp.runpp(probe, **kw))
-                if pe is None:
-                    vm2 = float(probe.res_bus.vm_pu.at[int(c.trafobus)])
-                    dist2 = max(lo_v - vm2, vm2 - hi_v, 0.0)
-                    # (a real improvement: at least 1e-3 p.u. - a tap that hardly moves this bus cannot help)
-                    if dist2 < dist - 1e-3:
-                        bad(4, f"{o['kind'].split('_')[0]}: tap at the limit opposite to the needed direction",
-                            f"{el} {r}: vm {vm:.5f} outside [{lo_v:.5f}, {hi_v:.5f}] with tap {tp} at a limit of "
-                            f"[{lo}, {hi}], but one step back into the range gives vm {vm2:.5f} (closer to the band)")
-            if o["kind"] == "continuous":
-                ok = abs(1 - c.vm_set_pu / vm) < c.tol + 1e-12 or (at_limit and o["bounds"])
-                if not ok:
-                    bad(4, "continuous: neither at setpoint nor at limit on return",
-                        f"{el} {r}: vm {vm:.5f}, setpoint {c.vm_set_pu}, tol {c.tol}, tap {tp} in [{lo}, {hi}]")
-            else:
-                ok = (c.vm_lower_pu < vm < c.vm_upper_pu) or at_limit
-                if not ok:
-                    bad(4, "discrete: neither inside band nor at limit on return",
-                        f"{el} {r}: vm {vm:.5f}, band [{c.vm_lower_pu:.5f}, {c.vm_upper_pu:.5f}], tap {tp} in "
-                        f"[{lo}, {hi}]")
+            for tgt in _tap_targets(c, o):
+                _band_oracle(net, c, o, tgt, kw, ctx, bad)
     # 3b. result tables equal a fresh power flow of the final element state
     ref = oracles.scrubbed_copy(net)
     _, e = c08._plain_call(lambda: pp.runpp(ref, **kw))
@@ -521,3 +501,60 @@ def _check_return(net, ctrls, op, kw, bad, ctx, multi, events=()):
             bad(3, f"results differ from a fresh power flow:{t}", f"{t}.{c_}: {what} {d}")
     else:
         bad(3, "fresh power flow of the returned state fails", f"{type(e).__name__}: {e!s:.120}")
+
+
+def _tap_targets(c, o):
+    """(transformer index, controlled bus, band / setpoint) per transformer of a tap controller (the vectorised form
+    holds arrays, the single-index form scalars)"""
+    idx = np.atleast_1d(c.element_index)
+    n = len(idx)
+    col = lambda x: np.broadcast_to(np.atleast_1d(np.asarray(x, dtype=float)), (n,)) if x is not None else [None] * n
+    buses = np.atleast_1d(c.trafobus)
+    if o["kind"] == "continuous":
+        vs = col(c.vm_set_pu)
+        return [(int(idx[j]), int(buses[j]), float(vs[j]), None, None) for j in range(n)]
+    lo, hi = col(c.vm_lower_pu), col(c.vm_upper_pu)
+    return [(int(idx[j]), int(buses[j]), None, float(lo[j]), float(hi[j])) for j in range(n)]
+
+
+def _band_oracle(net, c, o, tgt, kw, ctx, bad):
+    import pandapower as pp
+    r, bus, vm_set, vm_lo, vm_hi = tgt
+    el = c.element
+    vm = float(net.res_bus.vm_pu.at[bus]) if len(net.res_bus) else np.nan
+    tp, lo, hi = float(net[el].at[r, "tap_pos"]), float(net[el].at[r, "tap_min"]), float(net[el].at[r, "tap_max"])
+    at_limit = tp <= lo + 1e-9 or tp >= hi - 1e-9
+    if at_limit:
+        ctx.probe("tap_at_limit_on_return")
+    if np.isnan(vm):
+        return
+    # "at the limit in the needed direction": if the voltage is outside the band with the tap at a
+    # limit, one step back into the range must not bring the voltage closer to the band
+    if o["kind"] == "continuous":
+        lo_v, hi_v = vm_set * (1 - c.tol), vm_set * (1 + c.tol)
+    else:
+        lo_v, hi_v = vm_lo, vm_hi
+    dist = max(lo_v - vm, vm - hi_v, 0.0)
+    if at_limit and dist > 1e-9 and (o["kind"] != "continuous" or o["bounds"]):
+        probe = oracles.scrubbed_copy(net)
+        probe[el].at[r, "tap_pos"] = tp + 1 if tp <= lo + 1e-9 else tp - 1
+        _, pe = c08._plain_call(lambda: pp.runpp(probe, **kw))
+        if pe is None:
+            vm2 = float(probe.res_bus.vm_pu.at[bus])
+            dist2 = max(lo_v - vm2, vm2 - hi_v, 0.0)
+            # (a real improvement: at least 1e-3 p.u. - a tap that hardly moves this bus cannot help)
+            if dist2 < dist - 1e-3:
+                bad(4, f"{o['kind'].split('_')[0]}: tap at the limit opposite to the needed direction",
+                    f"{el} {r}: vm {vm:.5f} outside [{lo_v:.5f}, {hi_v:.5f}] with tap {tp} at a limit of "
+                    f"[{lo}, {hi}], but one step back into the range gives vm {vm2:.5f} (closer to the band)")
+    if o["kind"] == "continuous":
+        ok = abs(1 - vm_set / vm) < c.tol + 1e-12 or (at_limit and o["bounds"])
+        if not ok:
+            bad(4, "continuous: neither at setpoint nor at limit on return",
+                f"{el} {r}: vm {vm:.5f}, setpoint {vm_set}, tol {c.tol}, tap {tp} in [{lo}, {hi}]")
+    else:
+        ok = (vm_lo < vm < vm_hi) or at_limit
+        if not ok:
+            bad(4, "discrete: neither inside band nor at limit on return",
+                f"{el} {r}: vm {vm:.5f}, band [{vm_lo:.5f}, {vm_hi:.5f}], tap {tp} in "
+                f"[{lo}, {hi}]")
